@@ -187,3 +187,51 @@ def judge_map(ctx: Ctx, m: Any) -> None:
                 continue
             ctx.count("Map.aph_le_ap_checked")
             ctx.check(h.ap <= a.ap + 1e-9, "C04/aph_exceeds_ap", dict(info, label=str(a.target_labels[0])), tap)
+
+
+def judge_detection_against_frames(ctx: Ctx, ms: Any, frames: Sequence[Any], labels: Sequence[Any], mechanism: str, tap: str, info: Optional[Dict[str, Any]] = None) -> None:
+    """The detection scores in `ms` must be the scores of the object results / ground truths of `frames` pooled
+    (one frame => that frame's own score). Grouping rule = the library's: a result counts under its estimate's label,
+    or under its ground truth's label when the estimate's label is not a target."""
+    pooled: Dict[Any, List[Any]] = {l: [] for l in labels}
+    n_gt: Dict[Any, int] = {l: 0 for l in labels}
+    for fr in frames:
+        for r in fr.object_results:
+            lab = r.estimated_object.semantic_label.label
+            if lab not in pooled:
+                if r.ground_truth_object is None:
+                    continue
+                lab = r.ground_truth_object.semantic_label.label
+                if lab not in pooled:
+                    continue
+            pooled[lab].append(r)
+        for g in fr.frame_ground_truth.objects:
+            if g.semantic_label.label in n_gt:
+                n_gt[g.semantic_label.label] += 1
+    info = dict(info or {}, n_frames=len(frames), n_gt=sum(n_gt.values()))
+    for m in ms.maps:
+        for i, lab in enumerate(m.target_labels):
+            if lab not in pooled:
+                continue
+            thr = m.matching_threshold_list[i]
+            for metric, apobj in (("AP", m.aps[i]),) + ((("APH", m.aphs[i]),) if m.aphs else ()):
+                ranked = sorted(pooled[lab], key=lambda r: r.estimated_object.semantic_score, reverse=True)
+                weights, near = [], False
+                for r in ranked:
+                    k, nb = decide(r, m.matching_mode, [lab], [thr])
+                    near = near or nb
+                    weights.append((heading_weight(r.estimated_object, r.ground_truth_object) if metric == "APH" else 1.0) if k == "tp" else 0.0)
+                if near:
+                    ctx.count(f"{tap}.skipped_boundary")
+                    continue
+                sc = [r.estimated_object.semantic_score for r in ranked]
+                if any(a == b for a, b in zip(sc, sc[1:])):
+                    continue
+                ref, _ = reference_ap(weights, n_gt[lab])
+                ctx.count(f"{tap}.metrics_recomputed")
+                ctx.check(
+                    apobj.num_ground_truth == n_gt[lab] and apobj.objects_results_num == len(ranked) and close(float(apobj.ap), ref, 1e-9, 1e-9),
+                    mechanism,
+                    dict(info, metric=metric, mode=str(m.matching_mode), label=str(lab), value=apobj.ap, recomputed=ref, n_results=apobj.objects_results_num, recomputed_n_results=len(ranked), n_gt_used=apobj.num_ground_truth, recomputed_n_gt=n_gt[lab]),
+                    tap,
+                )
